@@ -12,7 +12,8 @@ HALF = 0.125
 FEATURES = ('windows', 'timeouts', 'nesting', 'forever', 'failures',
             'critical', 'never', 'slow_cleanup', 'slow_handlers', 'stalls',
             'verbose', 'coro', 'zero_jobs', 'sd_none', 'never_handler',
-            'inspect', 'cleanup_exc', 'self_cancel', 'odd_labels')
+            'inspect', 'cleanup_exc', 'self_cancel', 'odd_labels',
+            'crit_method')
 
 # probability that a feature is enabled at all in a run
 BASE_PROFILE = {
@@ -21,6 +22,7 @@ BASE_PROFILE = {
     'slow_handlers': 0.3, 'stalls': 0.2, 'verbose': 0.15, 'coro': 0.4,
     'zero_jobs': 0.35, 'sd_none': 0.2, 'never_handler': 0.1, 'inspect': 0.2,
     'cleanup_exc': 0.15, 'self_cancel': 0.15, 'odd_labels': 0.2,
+    'crit_method': 0.25,
     'max_jobs': 14, 'max_depth': 3, 'pure_top': 0.3,
 }
 
@@ -93,6 +95,10 @@ class _Gen:
                 node["exc_base"] = True
             elif rng.random() < 0.15:
                 node["exc_type"] = "timeout"
+        if feat['crit_method'] and rng.random() < 0.4:
+            # criticality given by the job class's own is_critical(); the
+            # constructor's flag says the opposite
+            node["crit_method"] = True
         if feat['odd_labels'] and rng.random() < 0.4:
             node["label"] = rng.choice((None, "{}", "echo ${HOME} {0}",
                                         "50% {x} %s", "a\nb"))
@@ -142,6 +148,8 @@ class _Gen:
         else:
             node["critical"] = feat['critical'] and rng.random() < self.p_crit \
                 if not top else rng.random() < 0.5
+            if feat['crit_method'] and rng.random() < 0.3:
+                node["crit_method"] = True
         # members
         room = max(1, self.budget - self.n_jobs)
         n = min(room, rng.choice((1, 2, 2, 3, 3, 4, 5, 6, 7)))
